@@ -15,6 +15,10 @@ that judge them.
     ('snap', jobs)          a running `jobs-poll` reads the job status files
                             *now*; its result reaches the scheduler later
     ('pollcmd',)            `poll_tasks */*` is queued (environment event)
+    ('burst', job, step)    the job takes `step` and its message is queued,
+                            but the scheduler does not run: the next event
+                            lands in the *same* main-loop iteration (two
+                            messages batched by process_queued_task_messages)
 
   and the free events
 
@@ -26,9 +30,10 @@ that judge them.
   `TaskEventsManager.process_message` (top-level calls only): `pm_begin` /
   `pm_end` events carry the proxy's (status, outputs) before and after.
 
-* `StaleGuard` (C10) and `LifecycleStrict` (C09) are the oracles; they are
-  written from the property statements over the environment's ground truth
-  (`World.env.jobs`) - cylc objects are only *observed*.
+* `StaleGuard` (C10, here) and `LifecycleStrict` (C09, mon_c09.py) are the
+  oracles; they are written from the property statements over the
+  environment's ground truth (`World.env.jobs`) - cylc objects are only
+  *observed*.
 """
 from __future__ import annotations
 
@@ -202,14 +207,15 @@ CLUSTER = 60.0       # seconds: deadlines closer than this fire together
 
 
 def long_delays(flow_text: str) -> str:
-    """Retry delays of minutes instead of seconds: a retry timer must not
-    come due by main-loop ticks alone (the clock of a carried-forward world
-    drifts by the self-loop events tried on it; see explore.py), only by a
-    `jump`. The values keep retry and poll (PT15M) deadlines well apart."""
+    """Retry delays of minutes instead of seconds, chosen so that retry
+    deadlines and (multiples of) the PT15M poll interval never come within
+    CLUSTER seconds of one another: which of two timers fires first is then
+    a function of the canonical state (deadline order), not of how many
+    seconds happened to pass between the events that set them."""
     return flow_text.replace('*PT5S', '*PT7M30S').replace('*PT7S', '*PT4M')
 
 
-DEVIATIONS = ('hold', 'lose', 'dup', 'early', 'snap', 'pollcmd')
+DEVIATIONS = ('hold', 'lose', 'dup', 'early', 'snap', 'pollcmd', 'burst')
 
 
 class MsgProfile(Profile):
@@ -269,20 +275,23 @@ class MsgProfile(Profile):
             return None
         world_canon(w, with_db=False)
         cand = sorted(
-            when for when, n in canon._DEADLINES
+            (when, n) for when, n in canon._DEADLINES
             if n.split(':')[0] in kinds)
         if not cand:
             return None
-        target = cand[0]
-        for when in cand[1:]:
+        target = cand[0][0]
+        fired = [cand[0][1]]
+        for when, n in cand[1:]:
             if when - target < CLUSTER:
                 target = when
+                fired.append(n)
             else:
                 break
         limits = [when for when, n in canon._DEADLINES
                   if n.split(':')[0] == 'proc']
         if limits and target > min(limits) - CLUSTER:
             return None
+        self._fired = fired     # names of the deadlines a jump would pass
         return target
 
     def cmd_variants(self, w, proc):
@@ -332,6 +341,8 @@ class MsgProfile(Profile):
                     evs.append(('hold', jk, step))
                 if 'lose' in dv and not step.startswith('out:'):
                     evs.append(('lose', jk, step))
+                if 'burst' in dv:
+                    evs.append(('burst', jk, step))
             if 'early' in dv:
                 for proc in w.env.pending():
                     if proc.kind != 'jobs-submit':
@@ -443,10 +454,12 @@ class MsgProfile(Profile):
         elif kind == 'jump':
             from .harness import CLOCK
             when = self._jump_target(w)
+            w.jump_fired = []
             if when is not None and when > CLOCK.now:
                 # just past the deadline (timers test `now > timeout`;
                 # virtual time does not move on ticks)
                 CLOCK.now = when + 0.001
+                w.jump_fired = list(self._fired)
         elif kind == 'deliver':
             _, jk, i = ev
             jk = tuple(jk)
@@ -472,6 +485,12 @@ class MsgProfile(Profile):
             w.dev_used += 1
             bump('dev:dup')
             w.deliver(tuple(jk), msg, _sev(msg))
+        elif kind == 'burst':
+            _, jk, step = ev
+            w.dev_used += 1
+            bump('dev:burst')
+            w.job_step(tuple(jk), step)
+            return          # no scheduler iteration
         elif kind == 'early':
             _, jk = ev
             jk = tuple(jk)
@@ -639,13 +658,16 @@ class StaleGuard(Monitor):
     (iii) once nothing is in transit (jobs over, no command running, no
           message queued or in flight) the task's status and outputs are
           those of the latest job's real outcome - or the task is still
-          active *and* has a poll timer that will reveal it.
+          active *and* has a poll timer that will reveal it (and when the
+          clock passes a poll deadline of an active task, a jobs-poll of
+          its job is requested).
     """
     name = 'stale-guard'
 
     def __init__(self):
         self.bad: List[dict] = []
         self.want_poll: List[tuple] = []
+        self.n_recv = 0
 
     # ------------------------------------------------------------ events
     def on_event(self, kind: str, data: dict) -> None:
@@ -661,6 +683,9 @@ class StaleGuard(Monitor):
         bump(f'pm:{flag}')
         if flag != RECEIVED or data['forced'] or it.transient:
             return
+        self.n_recv += 1
+        if self.n_recv == 2:
+            bump('batched-received')
         num = data['submit_num']
         jobs = instance_jobs(w, point, name)
         current = max([b_num] + [j.key[2] for j in jobs])
@@ -703,6 +728,7 @@ class StaleGuard(Monitor):
     def after(self, w: World, ev: tuple) -> List[dict]:
         out, self.bad = self.bad, []
         want, self.want_poll = self.want_poll, []
+        self.n_recv = 0
         for jk, msg, status in want:
             if not w.running:
                 continue
@@ -714,6 +740,8 @@ class StaleGuard(Monitor):
                     f'{jk[0]}/{jk[1]}: received {msg!r} of the current job '
                     f'{jk[2]:02d} while {status}: no state change, but no '
                     'jobs-poll was requested either'))
+        if ev[0] == 'jump' and w.running:
+            out.extend(self.timer_polls(w))
         if not out and env_settled(w):
             out.extend(self.final(w, 'settled'))
         flush_counters()
@@ -726,6 +754,32 @@ class StaleGuard(Monitor):
         return out
 
     # ---------------------------------------------------- clause (iii)
+    def timer_polls(self, w: World) -> List[dict]:
+        """(iii) relies on poll timers: when the clock has just been moved
+        past the poll deadline of an active task, a jobs-poll of its job
+        must have been requested in that iteration."""
+        out = []
+        fired = {n.split(':', 1)[1] for n in getattr(w, 'jump_fired', [])
+                 if n.startswith('poll:')}
+        for it in w.schd.pool.get_tasks():
+            if it.identity not in fired:
+                continue
+            if it.state.status not in ('submitted', 'running'):
+                continue
+            if any(k == 'reset' and d['state'] is it.state
+                   for k, d in w.events):
+                continue     # status changed in this iteration: new timer
+            jk = (str(it.point), it.tdef.name, it.submit_num)
+            if poll_requested(w, jk):
+                bump('timer-poll-seen')
+            else:
+                out.append(self.viol(
+                    f'poll-timer-fired-without-poll:{it.state.status}',
+                    f'{it.identity}: the poll timer of the {it.state.status}'
+                    f' task came due but no jobs-poll of job {jk[2]:02d} was '
+                    'requested'))
+        return out
+
     def final(self, w: World, where: str) -> List[dict]:
         out = []
         insts = sorted({(k[0], k[1]) for k in w.env.jobs})
